@@ -179,6 +179,26 @@ var props = map[string]propCfg{
 		}, modelAssumptions[:1]...),
 		MinNontriv: 50,
 	},
+	"C16": {
+		Level:    "fault_enumeration",
+		Quick:    tierCfg{Shards: 8, Checks: 4, Timeout: 4 * time.Minute},
+		Thorough: tierCfg{Shards: 16, Checks: 45, Timeout: 30 * time.Minute},
+		Rule: "mode faults: a tree of 2-4 Go files (names drawn so that the written files are first / middle / last in path order, in subdirectories, *_test.go; sizes from 70 B to 40 KB, sometimes ascending) and a patch (-cnt(x)/+cnt(x + 1), a generated patch + host from the shared model generator, or both, via -p or -P) that rewrites a drawn subset, passed as a directory, ./dir/..., dir/ or explicit files. " +
+			"A fault-free run defines the patched bytes; a fault-free run under a ptrace injector lists every system call (openat, read, write, close, rename*, chmod*, chown*, fsync, unlink*, link*, truncate* ...) that touches a file of the tree or a new entry below it (temporary files), across all threads, in order. " +
+			"Every listed call is failed once with each of ENOSPC / EIO / EACCES (read side: EACCES / EIO) and, separately, the process is SIGKILLed on entry to it; the run is also repeated under RLIMIT_FSIZE = N for N in {0..16, a stride through each output size, size-1}. Two fixed trees are enumerated completely in every run (split between the shards), the others are drawn. " +
+			"mode kinds (a complete table over a 3-file tree plus drawn compositions): unparseable source (6 fixed shapes, drawn cuts/insertions), a change whose + side uses an unbound metavariable, a change whose result does not parse, a target whose open fails with EACCES (alone and before/after another failing file), a missing path at each argument position, and a missing / unreadable / directory patch at each position of three patches given with -p or inside a -P list, and the -P list itself. " +
+			"Oracle: every pre-existing file holds its original or its fault-free bytes; after a normal exit no new directory entry remains, after a kill a new entry whose name ends in .go holds the original or patched bytes of some file; if the process was not killed, files the fault does not concern hold the fault-free result; whatever could not be processed (faulted file left unpatched, unreadable target, failing file, missing path, bad patch) makes the exit status non-zero and is named on stderr together with its cause (the errno text, a go/parser message, the metavariable); exit 0 implies every file holds its fault-free bytes. " +
+			"Non-trivial = (faults) the injector's log shows that exactly the intended call was tampered with and the file it belongs to is one the fault-free run rewrites, or the size limit is below the size of a rewritten file and demonstrably took effect; (kinds) at least one failure and at least one other file that the fault-free run rewrites. Distinct by sha256(case, file position, system call, ordinal, fault kind).",
+		Assumptions: []string{
+			"the ptrace injector (harness/props/c16_helpers_test.go, linux/amd64) and prlimit are trusted; every shard first checks that the injector and strace -f -y see the same calls on the two fixed trees (disagreement = inconclusive), and every fault run is only judged if the injector's log shows exactly the intended call tampered with",
+			"fully patched = the bytes a fault-free run of the same command leaves in the file; in mode kinds the fault-free twin is the run over the tree without the failing files (files are processed independently)",
+			"death by signal (the injected SIGKILL) counts as killed: stderr is not judged, every file must hold original or patched bytes, new entries not ending in .go are allowed; Go ignores SIGXFSZ, so runs under RLIMIT_FSIZE end normally with EFBIG ('file too large') and are judged like injected errors, every rewritten file larger than the limit being concerned",
+			"when a requested path is missing or a patch cannot be loaded the statement does not say whether the other files are still processed: each file may hold original or patched bytes, only exit status and the report (path as given or absolute + 'no such file or directory' / 'permission denied' / 'is a directory') are judged; per-file diagnostics are not demanded in such runs; at most one patch-level failure per case",
+			"naming a file = its absolute path (or the argument as given) occurs on stderr; the cause must occur in the same line, in the stretch that is not closer to another known path",
+			"an error injected into close() of the read descriptor, or any fault after which the file nevertheless holds its complete patched bytes, need not be reported",
+		},
+		MinNontriv: 300,
+	},
 }
 
 var modelAssumptions = []string{
